@@ -257,6 +257,24 @@ def real_view(via, ds, tokens):
         except Exception as e:
             L.append([name, f"<read raises {type(e).__name__}>"])
             problems.append("logs:read-raises")
+    # the store's own summaries are further readings of the same membership and checksums
+    try:
+        v = {str(r[0]): r[1] for r in ds.validate().to_list()}
+        n_ok = sum(1 for t in (C, N) for _c, md5 in t.values() if md5 is True)
+        n_missing = sum(1 for t in (C, N) for _c, md5 in t.values() if md5 is None)   # (a missing checksum is reported per member)
+        if (int(v["Num md5sum correct"]), int(v["Num md5sum incorrect"]), int(v["Num md5sum missing"])) != \
+                (n_ok, len(C) + len(N) - n_ok - n_missing, n_missing) and not problems:
+            problems.append("validate:counts-differ-from-members")
+        if bool(v["Has log"]) != bool(L):
+            problems.append("validate:has-log-differs")
+    except Exception as e:
+        problems.append(f"validate:raises-{type(e).__name__}")
+    try:
+        dsc = {str(r[0]): int(r[1]) for r in ds.describe.to_list()}
+        if (dsc.get("completed"), dsc.get("not_completed"), dsc.get("logs")) != (len(C), len(N), len(L)) and not problems:
+            problems.append("describe:counts-differ-from-members")
+    except Exception as e:
+        problems.append(f"describe:raises-{type(e).__name__}")
     return C, N, sorted(L), sorted(set(problems))
 
 
@@ -517,7 +535,7 @@ def contract_history(case):
 
 
 _FUNCS = ["write", "write_not_completed", "write_log", "drop_not_completed", "completed", "not_completed", "logs",
-          "read", "md5", "__init__ (modes r/a/w)"]
+          "read", "md5", "validate", "describe", "__init__ (modes r/a/w)"]
 BOUNDED = {
     "history": {
         "gen": gen_history, "contract": contract_history,
